@@ -442,6 +442,11 @@ func (x *c12) checkRunnerRun() {
 		cl.OnReturn = func(st *xState, ret *ssa.Return, res []xVal) {
 			sp := int(st.Client>>shSpawn) & 7
 			if sp == 0 && st.Client&bOwn == 0 && !(st.Client&bLoaded != 0 && st.Client&bStored != 0) {
+				// a path on which this call did not take the running flag: it must
+				// be a refusal, not a successful run that leaves the manager unmarked
+				if len(res) == 1 && res[0].K == xNil && !sawUnkTAS {
+					x.bad("C12.K0-once", cOnce, x.pos(ret), fmt.Sprintf("with %d runners Run returns nil at %s on a path on which it did not set the running flag: the manager is not marked as started, so a later Add is accepted and a later Run runs it (again) — a manager must run at most once and reject additions afterwards", n, x.pos(ret)))
+				}
 				return // refused
 			}
 			verifyE(st, "return at "+x.pos(ret))
